@@ -22,7 +22,13 @@ var c16Alphabets = map[string][]string{
 }
 
 // token types of registered symbols: application-defined, also far beyond one byte
-func c16Type(i int) int { return 100 + i*997 }
+// every fourth symbol gets type 0 (the value of the Unknown token type), which a table must store like any other
+func c16Type(i int) int {
+	if i%4 == 2 {
+		return 0
+	}
+	return 100 + i*997
+}
 
 func c16Inputs(alpha []string, extra string, maxLen int) []string {
 	var out []string
@@ -100,7 +106,7 @@ func c16Exec(c *mon.Case) {
 			if parts[1] == "wide" {
 				kind += " [characters above U+00FF]"
 			}
-			c.Failf(kind, "registered=%q (types 100+997*index, in this order) input=%q (read #%d on this table): got %s%q rest=%q, want type %d %q rest=%q",
+			c.Failf(kind, "registered=%q (types 100+997*index or 0, in this order) input=%q (read #%d on this table): got %s%q rest=%q, want type %d %q rest=%q",
 				syms, in, n+1, tokTypeName(t.Type()), t.Value(), rest.String(), wantType, wantText, wantRest)
 			return
 		}
@@ -151,7 +157,7 @@ func c16IncrExec(c *mon.Case) {
 			rest.WriteRune(ch)
 		}
 		if t.Value() != wantText || t.Type() != wantType || rest.String() != in[len(wantText):] {
-			c.Failf("wrong symbol text, type or consumed length after a further registration", "registered so far=%q (types 100+997*index; inputs are read between registrations, the symbol about to be registered last and again first); input=%q: got %s%q rest=%q, want type %d %q rest=%q",
+			c.Failf("wrong symbol text, type or consumed length after a further registration", "registered so far=%q (types 100+997*index or 0; inputs are read between registrations, the symbol about to be registered last and again first); input=%q: got %s%q rest=%q, want type %d %q rest=%q",
 				syms[:registered], in, tokTypeName(t.Type()), t.Value(), rest.String(), wantType, wantText, in[len(wantText):])
 			return false
 		}
@@ -216,7 +222,7 @@ func buildC16(cfg *mon.Config) []*mon.Sub {
 		}
 		subs = append(subs, &mon.Sub{
 			Name:          "sets-exhaustive-" + an,
-			Rule:          fmt.Sprintf("every non-empty set of <= %d of the 39 strings of length 1..3 over %q, every registration order for sets up to 2 (quick) / 3 (thorough), seeded orders for larger sets, token types 100+997*index; on each table every input of length 1..4 over the alphabet plus 'x' is read, then every input again in reverse order (history); oracle: longest registered prefix else the single next character with type Symbol, exact text, type and number of consumed characters; a case is one read; non-trivial = the table holds a multi-character symbol", maxSet, strings.Join(alpha, "")),
+			Rule:          fmt.Sprintf("every non-empty set of <= %d of the 39 strings of length 1..3 over %q, every registration order for sets up to 2 (quick) / 3 (thorough), seeded orders for larger sets, token types 100+997*index (0 for every fourth); on each table every input of length 1..4 over the alphabet plus 'x' is read, then every input again in reverse order (history); oracle: longest registered prefix else the single next character with type Symbol, exact text, type and number of consumed characters; a case is one read; non-trivial = the table holds a multi-character symbol", maxSet, strings.Join(alpha, "")),
 			Exhaustive:    true,
 			DistinctByGen: true,
 			Floor:         1000,
@@ -253,11 +259,11 @@ func buildC16(cfg *mon.Config) []*mon.Sub {
 	}
 	subs = append(subs, &mon.Sub{
 		Name:  "sets-random-large",
-		Rule:  "seeded random tables of 4..12 symbols of length 1..12 over {<,=,>,!,{,},a,ш,€} in random order, read on 60 random inputs each, twice; same oracle",
+		Rule:  "seeded random tables of 4..12 symbols of length 1..12 over {<,=,>,!,{,},a,ш,€,CR,LF,U+0002,U+00FF,U+0100,U+FFFD,U+FFFE} in random order, read on 60 random inputs each, twice; same oracle",
 		Floor: 100,
 		Gen: func(emit func(string)) {
 			r := cfg.Rng("c16-random")
-			chars := []string{"<", "=", ">", "!", "{", "}", "a", "ш", "€"}
+			chars := []string{"<", "=", ">", "!", "{", "}", "a", "ш", "€", "<", "=", ">", "\r", "\n", "\ufffe", "\ufffd", "\u0002", "\u0100", "\u00ff"}
 			for i := 0; i < cfg.N(2000, 200000); i++ {
 				set := map[string]bool{}
 				var syms []string
